@@ -7,6 +7,7 @@ import (
 
 	esreader "github.com/siglens/siglens/pkg/es/reader"
 	eswriter "github.com/siglens/siglens/pkg/es/writer"
+	tracinghandler "github.com/siglens/siglens/pkg/segment/tracing/handler"
 	"github.com/valyala/fasthttp"
 )
 
@@ -73,3 +74,13 @@ func callOp(raw json.RawMessage) (interface{}, error) {
 }
 
 func init() { Register("call", callOp) }
+
+// redtraces: one pass of the RED-metrics computation the server runs periodically (over the spans of the last five
+// minutes), then a flush so that the result is searchable.
+func redTracesOp(raw json.RawMessage) (interface{}, error) {
+	tracinghandler.ProcessRedTracesIngest(0)
+	doFlush()
+	return nil, nil
+}
+
+func init() { Register("redtraces", redTracesOp) }
